@@ -274,3 +274,26 @@ func (p *Prog) MapKeyExprAt(fn *ssa.Function, pos token.Pos) string {
 	})
 	return out
 }
+
+// RecvTextAt returns the source text of the receiver expression of the method call whose left parenthesis (the
+// position go/ssa gives a call) is at pos: `child` for child.PageValues().
+func (p *Prog) RecvTextAt(fn *ssa.Function, pos token.Pos) string {
+	root := fn
+	for root.Parent() != nil {
+		root = root.Parent()
+	}
+	body := p.Body(root)
+	if body == nil || !pos.IsValid() {
+		return ""
+	}
+	out := ""
+	ast.Inspect(body, func(n ast.Node) bool {
+		if call, ok := n.(*ast.CallExpr); ok && call.Lparen == pos {
+			if sel, ok := call.Fun.(*ast.SelectorExpr); ok {
+				out = types.ExprString(sel.X)
+			}
+		}
+		return out == ""
+	})
+	return out
+}
